@@ -172,7 +172,7 @@ type fakeStore struct {
 	lvCalls  int
 	mu       sync.Mutex
 	lastReq  *storepb.SeriesRequest
-	injected error
+	cutShort bool // a stream of this store saw its context cancelled before it had delivered everything
 }
 
 func (s *fakeStore) Series(ctx context.Context, req *storepb.SeriesRequest, _ ...grpc.CallOption) (storepb.Store_SeriesClient, error) {
@@ -218,10 +218,16 @@ func (c *fakeSeriesClient) Recv() (*storepb.SeriesResponse, error) {
 	case 1:
 		time.Sleep(time.Duration(c.rnd.Intn(50)) * time.Microsecond)
 	}
+	f := c.st.fail
+	f.k = min(f.k, len(c.msgs)) // a stream shorter than k responses breaks at its end
 	if c.ctx.Err() != nil {
+		if c.i < len(c.msgs) && !((f.kind == "after" || f.kind == "timeout") && c.i >= f.k) {
+			c.st.mu.Lock()
+			c.st.cutShort = true
+			c.st.mu.Unlock()
+		}
 		return nil, c.ctx.Err()
 	}
-	f := c.st.fail
 	if (f.kind == "after" || f.kind == "timeout") && c.i >= f.k {
 		if f.kind == "after" {
 			return nil, errors.Errorf("injected stream failure of %s", c.st.name)
